@@ -7,6 +7,7 @@ import (
 	"encoding/json"
 	"fmt"
 	"go/types"
+	"math"
 	"net"
 	"net/url"
 	"os"
@@ -465,7 +466,22 @@ func init() {
 		return out
 	})
 	reg("strings.ReplaceAll", func(in *Interp, fr *frame, a []Value) Value {
-		return mkStr(strings.ReplaceAll(strArg(a[0]).mustConcrete(), strArg(a[1]).mustConcrete(), strArg(a[2]).mustConcrete()))
+		s0, c0 := strArg(a[0]).Concrete()
+		o0, c1 := strArg(a[1]).Concrete()
+		n0, c2 := strArg(a[2]).Concrete()
+		if c0 && c1 && c2 {
+			return mkStr(strings.ReplaceAll(s0, o0, n0))
+		}
+		if c1 && o0 == "" {
+			panic(engineErr("ReplaceAll with empty old and symbolic operands"))
+		}
+		// ReplaceAll(s, old, new) == Join(Split(s, old), new) for a non-empty old
+		parts := in.strSplit(strArg(a[0]), strArg(a[1]))
+		ps := make([]Str, len(parts))
+		for i, p := range parts {
+			ps[i] = p.(Str)
+		}
+		return strJoin(ps, strArg(a[2]))
 	})
 	reg("strings.ToLower", func(in *Interp, fr *frame, a []Value) Value {
 		return mkStr(strings.ToLower(strArg(a[0]).mustConcrete()))
@@ -474,7 +490,15 @@ func init() {
 		return mkStr(strings.ToUpper(strArg(a[0]).mustConcrete()))
 	})
 	reg("strings.Count", func(in *Interp, fr *frame, a []Value) Value {
-		return goInt(strings.Count(strArg(a[0]).mustConcrete(), strArg(a[1]).mustConcrete()))
+		s0, c0 := strArg(a[0]).Concrete()
+		o0, c1 := strArg(a[1]).Concrete()
+		if c0 && c1 {
+			return goInt(strings.Count(s0, o0))
+		}
+		if c1 && o0 == "" {
+			panic(engineErr("Count with empty separator and symbolic operand"))
+		}
+		return goInt(len(in.strSplit(strArg(a[0]), strArg(a[1]))) - 1)
 	})
 	reg("strings.EqualFold", func(in *Interp, fr *frame, a []Value) Value {
 		return mkBool(strings.EqualFold(strArg(a[0]).mustConcrete(), strArg(a[1]).mustConcrete()))
@@ -589,6 +613,48 @@ func init() {
 		}
 		return in.ftoa(f, bits)
 	})
+	// ---- math (the bit-cast helpers go through unsafe pointers in the source) ----
+	reg("math.Abs", func(in *Interp, fr *frame, a []Value) Value {
+		f := a[0].(Float)
+		if f.S == nil {
+			return Float{K: f.K, C: math.Abs(f.C)}
+		}
+		t := f.S
+		zero := FPC(floatW(f.K), 0)
+		return symFloat(f.K, Ite(FPEq(t, zero), zero, Ite(FPLt(t, zero), FPNeg(t), t)))
+	})
+	concF := func(v Value, what string) float64 {
+		f := v.(Float)
+		if f.S != nil {
+			panic(engineErr(what + " of a symbolic float"))
+		}
+		return f.C
+	}
+	concU := func(v Value, what string) uint64 {
+		i := v.(Int)
+		if i.S != nil {
+			panic(engineErr(what + " of a symbolic integer"))
+		}
+		return i.C
+	}
+	reg("math.Float64bits", func(in *Interp, fr *frame, a []Value) Value {
+		return Int{K: types.Uint64, C: math.Float64bits(concF(a[0], "Float64bits"))}
+	})
+	reg("math.Float32bits", func(in *Interp, fr *frame, a []Value) Value {
+		return Int{K: types.Uint32, C: uint64(math.Float32bits(float32(concF(a[0], "Float32bits"))))}
+	})
+	reg("math.Float64frombits", func(in *Interp, fr *frame, a []Value) Value {
+		return Float{K: types.Float64, C: math.Float64frombits(concU(a[0], "Float64frombits"))}
+	})
+	reg("math.Float32frombits", func(in *Interp, fr *frame, a []Value) Value {
+		return Float{K: types.Float32, C: float64(math.Float32frombits(uint32(concU(a[0], "Float32frombits"))))}
+	})
+	for name, f := range map[string]func(float64) float64{"math.Floor": math.Floor, "math.Ceil": math.Ceil, "math.Trunc": math.Trunc, "math.Round": math.Round, "math.Sqrt": math.Sqrt, "math.Log10": math.Log10} {
+		name, f := name, f
+		reg(name, func(in *Interp, fr *frame, a []Value) Value {
+			return Float{K: types.Float64, C: f(concF(a[0], name))}
+		})
+	}
 	reg("strconv.FormatBool", func(in *Interp, fr *frame, a []Value) Value {
 		if in.brVal(a[0].(Bool)) {
 			return mkStr("true")
